@@ -62,7 +62,8 @@ def rich_state(P, A):
         body.append(B.item(iid, slug='is', obj_id=c0 if i == 0 else 'o'))
         if i == 0:
             body.append(T('p', c0))
-    body.append(T('p', '(tail)'))
+    if P.get('tail', True):
+        body.append(T('p', '(tail)'))
     addressed = B.story(addr_id, slug='ss', timing=None if 0 in untimed else tb('10'), body=body)
     extra = [B.item(A['e0'], slug='only-here', obj_id=c0)] if 'e0' in A else []
     other = B.story(other_id, slug='so', timing=None if 1 in untimed else tb('20'),
@@ -261,15 +262,17 @@ def full_cell(P, A):
     prop = P['prop']
     level, has_t, has_src, has_new = OPS[op]
     ro, ids, addr_id, other_id = rich_state(P, A)
+    if P.get('prehist'):
+        B.prehist_replace(ro)
     pl = plan(P, A, ids)
     rc = B.rc_of(ro)
     if level == 'story':
         cont = rc
     else:
-        cont = next(s for s in rc.findall('story') if s.find('storyID').text is addr_id)
+        cont = next(s for s in rc.findall('story') if B.same_obj(s.find('storyID').text, addr_id))
     story_ref = None
     if level == 'item':
-        story_ref = {'existing': addr_id, 'unknown': A.get('x'), 'blank': None}[pl.story_kind]
+        story_ref = {'existing': addr_id, 'unknown': A.get('x'), 'blank': None, 'absent': M.ABSENT}[pl.story_kind]
     mid_obj = ro.xml.find('messageID').text
     roid_obj = rc.find('roID').text
     root_snap = B.snap(ro.xml)
@@ -358,6 +361,8 @@ def slot_space(op, mode):
     level, has_t, has_src, has_new = OPS[op]
     k = kind_of(op)
     story_ks = ['existing', 'unknown', 'blank'] if level == 'item' else [None]
+    if op in ('EAItemDelete', 'EAItemSwap'):
+        story_ks.append('absent')            # the whole element_target is missing
     tks = [None]
     if has_t:
         tks = ['existing', 'unknown', 'blank']
@@ -369,7 +374,7 @@ def slot_space(op, mode):
     if has_src:
         if k == 'Swap':
             sks = [['existing', 'existing'], ['existing', 'unknown'], ['unknown', 'existing'],
-                   ['existing', 'blank'], ['blank', 'existing']]
+                   ['existing', 'blank'], ['blank', 'existing'], ['unknown', 'same'], ['blank', 'same']]
             if mode != 'report':
                 sks.append(['existing', 'same'])
         elif op in ('roStoryMove', 'roStorySend'):
